@@ -252,7 +252,7 @@ func TestVerif_C18_AdminAPI(t *testing.T) {
 	r.Rule("histories on two api.Servers (primary + secondary member of one embedded etcd) driven through their real chi routers: 0-2 sequential prefill creates, then 4-8 concurrent clients x 3-5 ops (create 30%, update 28%, delete 20%, get 14%, list 8%; 3 object names; Pipeline objects whose Mock filter body is a unique marker, 1 in 5 writes uses kind TrafficController to reach the 400 path), random server per op, then a final GET /objects; the secondary member (after the first endpoint sync also the primary) talks to etcd through a TCP relay that delays each forwarded chunk by a random time up to a per-connection, per-history maximum (0 / 0.5 / 1.5 / 4 ms) so that the members' etcd requests interleave as they do over a real network; " +
 		"distinct = per-history vector of outcome counts (201, 200 update, 200 delete, 409, 404, 400) and number of overlapping successful mutations")
 	r.Assume("spec bodies are valid and the URL name equals the spec name (the 400 of the property is the kind-mismatch 400)")
-	r.Assume("a 503 answer (cluster request timed out under load) makes a history undecidable: it is reported inconclusive, not judged")
+	r.Assume("a 503 answer (cluster request timed out under load) makes a history undecidable: it is set aside and listed in the notes; more than one such history and more than 1% of a shard's histories make the run inconclusive")
 
 	rig, err := c18StartRig(r.TmpDir())
 	defer rig.Close()
@@ -270,6 +270,12 @@ func TestVerif_C18_AdminAPI(t *testing.T) {
 	}
 
 	n := r.N(60, 1500)
+	mine, discarded503 := 0, 0
+	for i := 0; i < n; i++ {
+		if r.Mine(i) {
+			mine++
+		}
+	}
 	for i := 0; i < n; i++ {
 		if !r.Mine(i) {
 			continue
@@ -373,7 +379,15 @@ func TestVerif_C18_AdminAPI(t *testing.T) {
 		}
 		if undecidable {
 			if cnt["create/503"]+cnt["update/503"]+cnt["delete/503"]+cnt["get/503"]+cnt["list/503"] > 0 {
-				r.Inconclusive(fmt.Sprintf("history %d contains 503 answers (cluster request timeout)", i))
+				// a cluster-level fault (request timeout under load) was answered with 503: whether the
+				// request took effect is not defined, the history cannot be judged and is set aside
+				discarded503++
+				r.Count("histories_set_aside_because_of_503", 1)
+				for _, o := range hist {
+					if o.Out.Status == http.StatusServiceUnavailable {
+						r.Note("history %d: %s %s on server %d answered 503: %s", i, o.In.Op, c18Names[o.In.Name], o.Server, o.Out.Extra)
+					}
+				}
 			}
 			continue
 		}
@@ -468,6 +482,11 @@ func TestVerif_C18_AdminAPI(t *testing.T) {
 			r.Count("porcupine_unknown", 1)
 			r.Inconclusive(fmt.Sprintf("porcupine Unknown on history %d", i))
 		}
+	}
+	// isolated 503 histories are set aside (and listed in the notes); more than 1% of them means the
+	// workload did not run as intended (or the lock is stuck) and the run decides nothing
+	if allowed := mine / 100; discarded503 > 1 && discarded503 > allowed {
+		r.Inconclusive(fmt.Sprintf("%d of %d histories contained 503 answers (cluster request timeouts)", discarded503, mine))
 	}
 	for _, k := range []string{"create/201", "create/409", "update/200", "update/404", "update/400", "delete/200", "delete/404", "get/200", "get/404", "list/200"} {
 		r.Require("answers:"+k, 1)
